@@ -185,6 +185,23 @@ func c18Mix(w *core.WorkerCtx, target *c18Node, feeders []*c18Node, users []*led
 			time.Sleep(700 * time.Microsecond)
 		}
 	}()
+	// two peers keep pulling vertices and transactions the node does not hold (hashes nobody ever saw)
+	for g := 0; g < 2; g++ {
+		wg.Add(1)
+		go func(g int) {
+			defer wg.Done()
+			var h ledger.H
+			for i := 0; !stop.Load(); i++ {
+				h[0], h[1], h[2], h[3] = byte(g+1), byte(i), byte(i>>8), byte(i>>16)
+				target.book.ReadVertex(ctx, h)
+				target.book.ReadTransactionByHash(ctx, h)
+				cnt["read_vertex"].Add(1)
+				if i%8 == 7 {
+					time.Sleep(300 * time.Microsecond)
+				}
+			}
+		}(g)
+	}
 	wg.Add(1)
 	go func() {
 		defer wg.Done()
